@@ -2252,6 +2252,8 @@ def map_key(m, k):
         return (k.tag,) + tuple(k.deps)
     if isinstance(k, (int, str)):
         return k
+    if isinstance(k, Str) and k.is_concrete():
+        return ('str', k.concrete())
     raise EncoderGap('map key %r' % (k,))
 
 
@@ -2269,6 +2271,12 @@ def crate_default(m, ty):
     from .machine import parse_call_name
     fn = m.defs.resolve(parse_call_name('<%s as Default>::default' % ty))
     if fn is None:
+        if ty and re.match(r'^(std::vec::|alloc::vec::)?Vec<', ty):
+            return Vec((), 'Vec')
+        if ty in ('bool',):
+            return False
+        if ty in INT_BITS:
+            return 0
         raise EncoderGap('Default for %s' % ty)
     return m.call_fn(fn, [])
 
